@@ -248,6 +248,71 @@ def output_root(ctx):
            'intermediate directory is not derived from the target name')
 
 
+def name_strip_once(ctx):
+    R = 'NAME-STRIP-ONCE'
+    ctx.rule(R, 'between a source path and the default output name the '
+             'extension is stripped at most once (default_name + output_file '
+             'of one tool class), so stems that contain dots stay distinct '
+             '(calc.c vs calc.tab.c)')
+    repo = ctx.repo
+    n = 0
+    for ci in sorted(repo.classes.values(), key=lambda c: c.fq):
+        if not ci.module.name.startswith('bfg9000.tools'):
+            continue
+        if 'default_name' not in ci.methods or \
+                'output_file' not in ci.methods:
+            continue
+        n += 1
+
+        def strips(fn):
+            return [c for c in Q.calls(fn) if Q.callee_attr(c) in (
+                'stripext', 'splitext')]
+        a = strips(ci.methods['default_name'])
+        b = strips(ci.methods['output_file'])
+        # a second strip applied to the pch *source* (not the name) is fine
+        b = [c for c in b if 'name' in unparse(c)]
+        ctx.ob(R, ci.fq, not (a and b), ci.methods['output_file'],
+               '{}: default_name strips the extension and output_file '
+               'strips again ({}): `x.tab.c` and `x.c` get the same output'
+               .format(ci.name, unparse(b[0]) if b else ''))
+    ctx.require_min(R, n, 6, 'tool classes with default_name+output_file')
+    # within_directory: everything appended to the directory went through the
+    # parent-reference rewrite
+    f = repo.func('bfg9000.builtins.path:within_directory')
+    rets = Q.returns(f.node)
+    if len(rets) == 1 and isinstance(rets[0].value, ast.Call) and \
+            Q.callee_attr(rets[0].value) == 'append' and \
+            rets[0].value.args and isinstance(rets[0].value.args[0],
+                                              ast.Name):
+        var = rets[0].value.args[0].id
+        defs = [v for v in Q.local_assignments(f.node, var)]
+        rewrites = [v for v in defs if v is not None and isinstance(
+            v, ast.Call) and unparse(v.func) in ('re.sub',)]
+        feeds = []
+        for v in defs:
+            if v is None or v in rewrites:
+                continue
+            # a definition is fine when its only use is as input of the
+            # rewrite
+            feeds.append(v)
+        uses_ok = True
+        for v in feeds:
+            # the value must reach re.sub: i.e. some rewrite takes `var`
+            # as its subject and follows this definition in the same block
+            blk = v._parent._parent if hasattr(v, '_parent') else None
+            sib = getattr(blk, 'body', None)
+            ok_here = False
+            if isinstance(sib, list) and v._parent in sib:
+                later = sib[sib.index(v._parent) + 1:]
+                ok_here = any(isinstance(s_, ast.Assign) and s_.value in
+                              rewrites for s_ in later)
+            uses_ok = uses_ok and ok_here
+        ctx.ob('PARREF-REGEX', 'within_directory|every-suffix-is-rewritten',
+               bool(rewrites) and uses_ok, f.node,
+               'a path suffix can reach directory.append() without passing '
+               'through the parent-reference rewrite (fast path)')
+
+
 # write-effect sites: (function fq, description, how the path is obtained)
 def write_root(ctx):
     R = 'WRITE-ROOT'
@@ -502,4 +567,7 @@ def check(ctx):
     parref_regex(ctx)
     owner.check(ctx)
     output_root(ctx)
+    name_strip_once(ctx)
     write_root(ctx)
+    from ..rules import pathops
+    pathops.check(ctx)
